@@ -91,6 +91,14 @@ def gen_x(rng, n, cls):
         return xs
     if cls == 'smallint':
         return [float(rng.randint(-5, 5)) for _ in range(n)]
+    if cls == 'tinyscale':
+        # distinct abscissae on a very fine grid near 0 (well conditioned after scaling, tiny raw moments)
+        s = rng.choice([1e-4, 2e-4, 1e-3, 1e-2])
+        a = rng.randint(-3, 0)
+        return [s * (a + i) for i in range(n)]
+    if cls == 'largescale':
+        s = rng.choice([1e2, 1e3])
+        return [s * rng.uniform(-3, 3) for _ in range(n)]
     raise ValueError(cls)
 
 
@@ -105,7 +113,7 @@ def gen_y(rng, xs):
     return ys
 
 
-XCLASSES = ['grid', 'uniform', 'clustered', 'shifted', 'negative', 'repeated', 'smallint']
+XCLASSES = ['grid', 'uniform', 'clustered', 'shifted', 'negative', 'repeated', 'smallint', 'tinyscale', 'largescale']
 
 
 def data(rng):
@@ -233,6 +241,13 @@ def cond_sym(xs, m):
         r = None
     else:
         r = max(sum(abs(v) for v in row) for row in B) * max(sum(abs(v) for v in row) for row in Bi)
+        # "moment matrix condition up to about 1e10" is read in the way that demands LEAST of the code: the data
+        # set is in the property's domain only if the RAW moment matrix, too, has condition <= 1e10 (the raw
+        # condition is never smaller than the diagonally scaled one).  Outside: correspondence only.
+        Mi = exact_inverse(M)
+        raw = max(sum(abs(v) for v in row) for row in M) * max(sum(abs(v) for v in row) for row in Mi)
+        if raw > COND_MAX:
+            r = None
     _cond_cache[key] = r
     return r
 
